@@ -1,5 +1,6 @@
 import LentilVerif.Model.PropSeg
 import LentilVerif.Lemmas.PlaneAlg
+import LentilVerif.Lemmas.PropLinear
 import LentilVerif.Props.C07
 /-! # C03 — splitting an aperture into segments never changes the result
 
@@ -131,6 +132,74 @@ theorem chain_segmented_eq (ph : R → K) (ps qs : List (PlaneM K R)) (data : Li
   rw [key, key, hT]
 
 end segments
+
+section propagate
+variable {K R : Type} [Add R] [Sub R] [Mul R] [Neg R] [RealLike R] [NonUnitalNonAssocSemiring K] [CxLike K R]
+
+/-- **propagation is additive in the embedded field**: two descriptions of a wavefront — any numbers of fields of any
+shapes and offsets — with the same total field at every pixel of the infinite plane (e.g. segmented and monolithic, by
+`chain_segmented_eq`) give, after `propagate_dft` with any sampling `αr, αc`, output shape and propagation shape, fields
+whose sum is the same at every output sample: each sub-array is re-centred by its own offset inside `dft2`, which makes
+its transform the transform of its zero-padded embedding (`dft2_eq_boxDft`), and the transform is additive. The unitary
+scale factor is common. (Tilt-free fields, no output mask: `propagateDftNoTilt`.) -/
+theorem propagate_linear (A B : List (Fld K)) (hA : ∀ f ∈ A, 0 < f.arr.s0 ∧ 0 < f.arr.s1) (hB : ∀ f ∈ B, 0 < f.arr.s0 ∧ 0 < f.arr.s1)
+    (htot : ∀ r c, sumList A (fun f => f.emb r c) = sumList B (fun f => f.emb r c))
+    (αr αc : R) (shapeOut propOut : Int × Int) (u v : Int) :
+    sumList (propagateDftNoTilt A αr αc shapeOut propOut) (fun g => g.arr.get u v)
+      = sumList (propagateDftNoTilt B αr αc shapeOut propOut) (fun g => g.arr.get u v) := by
+  unfold propagateDftNoTilt
+  cases hw : propWindow shapeOut propOut with
+  | none => rfl
+  | some w =>
+    obtain ⟨ish, isft, psh⟩ := w
+    simp only []
+    rw [sumList_map, sumList_map]
+    obtain ⟨R0, H, C0, W, hbox⟩ := exists_box (A ++ B)
+    have hbA : ∀ f ∈ A, _ := fun f hf => hbox f (List.mem_append_left _ hf)
+    have hbB : ∀ f ∈ B, _ := fun f hf => hbox f (List.mem_append_right _ hf)
+    -- unitary = true: value = unscaled value * scale
+    have hscale : ∀ (f : Fld K), (dft2 f.arr αr αc ish.1 ish.2 (RealLike.ofInt psh.1) (RealLike.ofInt psh.2) f.o0 f.o1 true).get u v
+        = (dft2 f.arr αr αc ish.1 ish.2 (RealLike.ofInt psh.1) (RealLike.ofInt psh.2) f.o0 f.o1 false).get u v
+          * CxLike.ofReal (RealLike.sqrt (RealLike.abs (αr * αc))) := by
+      intro f; unfold dft2; simp
+    simp only [hscale]
+    rw [sumList_mul_right, sumList_mul_right,
+        sum_dft2_eq_boxDft A hA αr αc ish.1 ish.2 _ _ u v R0 H C0 W hbA,
+        sum_dft2_eq_boxDft B hB αr αc ish.1 ish.2 _ _ u v R0 H C0 W hbB,
+        boxDft_congr _ _ htot]
+
+/-- all output fields of the propagation occupy the same window, so the statement carries over to the embedded total:
+the propagated `Wavefront.field` (and with `views_depend_on_total` the intensity) of both descriptions agree -/
+theorem propagate_linear_emb (A B : List (Fld K)) (hA : ∀ f ∈ A, 0 < f.arr.s0 ∧ 0 < f.arr.s1) (hB : ∀ f ∈ B, 0 < f.arr.s0 ∧ 0 < f.arr.s1)
+    (htot : ∀ r c, sumList A (fun f => f.emb r c) = sumList B (fun f => f.emb r c))
+    (αr αc : R) (shapeOut propOut : Int × Int) (r c : Int) :
+    sumList (propagateDftNoTilt A αr αc shapeOut propOut) (fun g => g.emb r c)
+      = sumList (propagateDftNoTilt B αr αc shapeOut propOut) (fun g => g.emb r c) := by
+  have key := propagate_linear A B hA hB htot αr αc shapeOut propOut
+  unfold propagateDftNoTilt at key ⊢
+  cases hw : propWindow shapeOut propOut with
+  | none => rfl
+  | some w =>
+    obtain ⟨ish, isft, psh⟩ := w
+    simp only [hw] at key ⊢
+    simp only [sumList_map] at key ⊢
+    by_cases hin : (arrayExtent ish.1 ish.2 isft.1 isft.2).inb r c = true
+    · have hk := key (r - (arrayExtent ish.1 ish.2 isft.1 isft.2).rmin) (c - (arrayExtent ish.1 ish.2 isft.1 isft.2).cmin)
+      have e : ∀ (f : Fld K), (Fld.mk (dft2 f.arr αr αc ish.1 ish.2 (RealLike.ofInt psh.1) (RealLike.ofInt psh.2) f.o0 f.o1 true) isft.1 isft.2).emb r c
+          = (dft2 f.arr αr αc ish.1 ish.2 (RealLike.ofInt psh.1) (RealLike.ofInt psh.2) f.o0 f.o1 true).get
+              (r - (arrayExtent ish.1 ish.2 isft.1 isft.2).rmin) (c - (arrayExtent ish.1 ish.2 isft.1 isft.2).cmin) := by
+        intro f
+        show embAt (arrayExtent ish.1 ish.2 isft.1 isft.2) _ r c = _
+        unfold embAt; rw [if_pos hin]
+      simp only [e]; exact hk
+    · have e : ∀ (f : Fld K), (Fld.mk (dft2 f.arr αr αc ish.1 ish.2 (RealLike.ofInt psh.1) (RealLike.ofInt psh.2) f.o0 f.o1 true) isft.1 isft.2).emb r c = 0 := by
+        intro f
+        show embAt (arrayExtent ish.1 ish.2 isft.1 isft.2) _ r c = _
+        unfold embAt; rw [if_neg hin]
+      simp only [e]
+      rw [sumList_all_zero A _ (fun _ _ => rfl), sumList_all_zero B _ (fun _ _ => rfl)]
+
+end propagate
 
 section coherent
 variable {K : Type} [NonAssocSemiring K]
